@@ -644,6 +644,79 @@ async fn shutdown(nodes: Vec<LiveNode>) {
     }
 }
 
+/// A second document that all nodes of the worker sync for as long as the worker lives: one
+/// entry per node, converged before the first history. Whatever the histories do to *their*
+/// documents, this one must not change (an entry, event or deletion attributed to the wrong
+/// document would show here).
+struct Bystander {
+    secret: iroh_docs::NamespaceSecret,
+    expected: BTreeSet<Row>,
+}
+
+async fn bystander_doc(node: &LiveNode, b: &Bystander, addr0: Option<iroh::EndpointAddr>) -> Result<Doc, String> {
+    let doc = node.docs.api().import_namespace(Capability::Write(b.secret.clone())).await.map_err(|e| format!("{e:#}"))?;
+    doc.start_sync(addr0.into_iter().collect()).await.map_err(|e| format!("{e:#}"))?;
+    Ok(doc)
+}
+
+async fn setup_bystander(nodes: &[LiveNode]) -> Result<Bystander, String> {
+    let mut b = Bystander { secret: secret(0xb757, 9), expected: BTreeSet::new() };
+    let addr0 = nodes[0].router.endpoint().addr();
+    let mut docs = vec![];
+    for (i, node) in nodes.iter().enumerate() {
+        let doc = bystander_doc(node, &b, (i > 0).then(|| addr0.clone())).await?;
+        set_clock(T0 + 5);
+        doc.set_bytes(node.author, format!("by{i}").into_bytes(), format!("bystander-{i}").into_bytes()).await.map_err(|e| format!("{e:#}"))?;
+        set_clock(NOW);
+        if let Ok(Some(e)) = doc.get_exact(node.author, format!("by{i}").as_bytes(), false).await {
+            b.expected.insert(row_of(&e));
+        }
+        docs.push(doc);
+    }
+    // converge (ask for sessions until everyone holds everything; this is set-up, not a verdict)
+    let start = std::time::Instant::now();
+    loop {
+        let mut all = true;
+        for d in &docs {
+            all &= dump(d).await.map(|r| r == b.expected).unwrap_or(false);
+        }
+        if all {
+            return Ok(b);
+        }
+        if start.elapsed() > Duration::from_secs(60) {
+            return Err("the bystander document did not converge within 60 s".into());
+        }
+        for d in docs.iter().skip(1) {
+            let _ = d.start_sync(vec![addr0.clone()]).await;
+        }
+        tokio::time::sleep(Duration::from_millis(200)).await;
+    }
+}
+
+/// After a history: the bystander document on every node.
+async fn check_bystander(nodes: &[LiveNode], b: &Bystander) -> Option<String> {
+    let addr0 = nodes[0].router.endpoint().addr();
+    for (i, node) in nodes.iter().enumerate() {
+        // (a restarted node has to open the document again; `import` of a known document opens it)
+        let doc = match bystander_doc(node, b, (i > 0).then(|| addr0.clone())).await {
+            Ok(d) => d,
+            Err(e) => return Some(format!("node {i}: the bystander document cannot be opened: {e}")),
+        };
+        let got = dump(&doc).await;
+        let _ = doc.close().await;
+        match got {
+            Ok(rows) if rows == b.expected => {}
+            Ok(rows) => {
+                // a restarted node may have to fetch the other nodes' entries again only if it lost
+                // them; losing or gaining anything is a change
+                return Some(format!("node {i}: the bystander document holds {} but it was left at {}", show(&rows), show(&b.expected)));
+            }
+            Err(e) => return Some(format!("node {i}: the bystander document cannot be read: {e}")),
+        }
+    }
+    None
+}
+
 fn alphabet(n: u8, which: &str) -> Vec<LEv> {
     let mut evs = vec![];
     for node in 0..n {
@@ -706,6 +779,7 @@ pub fn run_live_family(ctx: &Ctx, report: &mut Report, which: &'static str) {
         let mut stats = Stats::default();
         let results: anyhow::Result<Vec<(u64, Vec<LEv>, bool, Bad, bool, String)>> = rt.block_on(async {
             let mut ns = nodes(n as usize, which == "C04").await?;
+            let bystander = if which == "C04" { Some(setup_bystander(&ns).await.map_err(|e| anyhow::anyhow!("bystander document: {e}"))?) } else { None };
             let mut out = vec![];
             for (ord, hist, dec, which) in cases {
                 let which = which.as_str();
@@ -718,6 +792,11 @@ pub fn run_live_family(ctx: &Ctx, report: &mut Report, which: &'static str) {
                     // a loaded machine: once more, with a long deadline
                     rerun = true;
                     bad = exec(&mut ns, &hist, dec, ord ^ (1 << 39), LONG, &mut stats, which).await;
+                }
+                if let Some(b) = &bystander {
+                    if let Some(d) = check_bystander(&ns, b).await {
+                        bad.push(("other_documents_of_the_node_untouched", json!({"live": true, "nodes": n}), d));
+                    }
                 }
                 out.push((ord, hist, dec, bad, rerun, which.to_string()));
             }
